@@ -761,6 +761,13 @@ func runC03(ctx *core.Ctx) {
 		ctx.Add("c03.validIP", sArg{s})
 	}
 
+	// tree.Path.Next vs TPath.next vs the kernel-reducible TPath.nextK: every string over a small alphabet at the root and below it
+	allStrings([]string{"a", ".", "👻", "é", "[]", "x-"}, ctx.Pick(4, 6), func(s string) {
+		ctx.Count("pathnext-exhaustive")
+		ctx.Add("c03.pathNext", map[string]any{"p": []string{}, "part": s})
+		ctx.Add("c03.pathNext", map[string]any{"p": []string{"services", "a"}, "part": s})
+	})
+
 	// 2. spec oracles, exhaustive over the bounded ASTs of DESIGN §6 C03
 	nPortAst := 0
 	for _, ip := range append(append([]*ipA{}, ipForms...), badIPForms[:ctx.Pick(3, len(badIPForms))]...) {
